@@ -179,6 +179,8 @@ pub mod circular_buffer;
 pub mod graph;
 pub mod mtgraph;
 pub mod stream;
+#[cfg(feature = "verif_hooks")]
+pub mod verif;
 pub mod window;
 
 /// Float type used. Usually f32, but not guaranteed.
